@@ -97,9 +97,6 @@ func decode(kind string, b []byte) int32 {
 		return 0
 	case kind == "intbyteslimit":
 		in.ReadIntBytesLimit(1 << 20)
-	case strings.HasPrefix(kind, "shortarrsz:"):
-		n, _ := strconv.ParseInt(kind[11:], 10, 64)
-		pack.ReadShortArray(in, int(n))
 	case strings.HasPrefix(kind, "udp:"):
 		f := strings.Split(kind, ":")
 		t, _ := strconv.Atoi(f[1])
